@@ -14,9 +14,9 @@ theorem verify_fields (dir : Bool) (s : S) (a : Bool) :
     (verify dir s a).1.pin = s.pin ∧ (verify dir s a).1.fclosed = s.fclosed := by
   simp [verify]
 
-theorem verifyBad_fields (dir : Bool) (s : S) :
-    (verifyBad dir s).ended = s.ended ∧ (verifyBad dir s).written = s.written ∧ (verifyBad dir s).published = s.published ∧
-    (verifyBad dir s).pin = s.pin ∧ (verifyBad dir s).fclosed = s.fclosed := by
+theorem verifyBad_fields (dir : Bool) (s : S) (a : Bool := false) :
+    (verifyBad dir s a).ended = s.ended ∧ (verifyBad dir s a).written = s.written ∧ (verifyBad dir s a).published = s.published ∧
+    (verifyBad dir s a).pin = s.pin ∧ (verifyBad dir s a).fclosed = s.fclosed := by
   simp [verifyBad]
 
 theorem inv_congr (s t : S) (he : t.ended = s.ended) (hw : t.written = s.written) (hp : t.published = s.published)
@@ -99,6 +99,9 @@ theorem step_inv (dir : Bool) (s : S) (o : Op) (h : Inv s) : Inv (step dir s o).
   | vbad =>
     have hf := verifyBad_fields dir s
     exact inv_congr s _ hf.1 hf.2.1 hf.2.2.1 hf.2.2.2.1 h
+  | vbadAlt =>
+    have hf := verifyBad_fields dir s true
+    exact inv_congr s _ hf.1 hf.2.1 hf.2.2.1 hf.2.2.2.1 h
   | vgood =>
     have hf := verify_fields dir s false
     exact inv_congr s _ hf.1 hf.2.1 hf.2.2.1 hf.2.2.2.1 h
@@ -164,6 +167,7 @@ theorem step_ended (dir : Bool) (s : S) (o : Op) (he : s.ended = true) :
   cases o with
   | w c => simp [step, he]
   | vbad => have hf := verifyBad_fields dir s; exact ⟨hf.1.trans he, hf.2.1⟩
+  | vbadAlt => have hf := verifyBad_fields dir s true; exact ⟨hf.1.trans he, hf.2.1⟩
   | vgood => have hf := verify_fields dir s false; exact ⟨hf.1.trans he, hf.2.1⟩
   | vgoodAlt => have hf := verify_fields dir s true; exact ⟨hf.1.trans he, hf.2.1⟩
   | close =>
@@ -214,6 +218,7 @@ theorem step_published_mono (dir : Bool) (s : S) (o : Op) (p : List Nat) (hp : p
   cases o with
   | w c => simp only [step]; split <;> exact hp
   | vbad => simp only [step]; rw [(verifyBad_fields dir s).2.2.1]; exact hp
+  | vbadAlt => simp only [step]; rw [(verifyBad_fields dir s true).2.2.1]; exact hp
   | vgood => simp only [step]; rw [(verify_fields dir s false).2.2.1]; exact hp
   | vgoodAlt => simp only [step]; rw [(verify_fields dir s true).2.2.1]; exact hp
   | close =>
@@ -262,6 +267,7 @@ theorem step_pin (dir : Bool) (s : S) (o : Op) : (step dir s o).1.pin = s.pin :=
   cases o with
   | w c => simp only [step]; split <;> rfl
   | vbad => exact (verifyBad_fields dir s).2.2.2.1
+  | vbadAlt => exact (verifyBad_fields dir s true).2.2.2.1
   | vgood => exact (verify_fields dir s false).2.2.2.1
   | vgoodAlt => exact (verify_fields dir s true).2.2.2.1
   | close =>
